@@ -472,7 +472,7 @@ func init() {
 		Title: "SETVAR/GETVAR behave as per-key registers in evaluation order",
 		Rule: "rapid draws a history: an initial variable map (possibly preset) and 1-5 queries sharing that one map; each query has a table (0-5 rows), " +
 			"an optional WHERE on plain columns and 1-6 select items out of SETVAR(k, const | column | column+const | GETVAR(k') | GETVAR(k') op const | " +
-			"GETVAR(k')+column | NULL | CONCAT(GETVAR(k), column)), GETVAR(k) AS alias (incl. a key that is never set; a fifth of them inside a scalar subquery over dual) and plain columns; a quarter of the queries are wrapped in a derived table or a CTE (variables read and written inside the nested query), over keys k1..k3. " +
+			"GETVAR(k')+column | NULL | CONCAT(GETVAR(k), column)), GETVAR(k) AS alias (incl. a key that is never set; a fifth of them inside a scalar subquery over dual) and plain columns; a quarter of the queries are wrapped in a derived table or a CTE (variables read and written inside the nested query), over keys k1..k3; a sixth are `<arm> UNION ALL <arm>` with flat or derived arms (left arm evaluated first); a quarter of the histories hold int64 values beyond 2^53 in a register (column b, key kb); histories of flat queries also construct all queries before the first runs, execute an earlier Query object again, and let the caller write into the map between queries. " +
 			"Oracle: a sequential register model evaluated row by row on the rows passing WHERE, item by item: every GETVAR column equals the model's " +
 			"value at that point (NULL if unset), SETVAR adds no column, after each Exec the caller's map deep-equals the model, the next query " +
 			"starts from that state. Non-trivial: >=2 queries, >=1 SETVAR and GETVAR, and a GETVAR that reads a value written by an earlier row or query.",
